@@ -37,7 +37,7 @@ def run_demo(demo, tree):
         cmd = [PY, "-m", "pytest", "-q", "-p", "no:cacheprovider", demo]
     else:
         cmd = [PY, demo, tree]
-    r = sh(cmd, cwd=tree, env=env, timeout=1800)
+    r = sh(cmd, cwd=tree, env=env, timeout=int(os.environ.get("SEED_DEMO_TIMEOUT", "1800")))
     return r.returncode, r.stdout[-1500:]
 
 
